@@ -37,7 +37,7 @@ class Ctx:
         d = os.path.join(self.work, "p1_" + name)
         r = tlc.model_check(d, base, constants, invariants=invariants, properties=properties,
                             name=name, dump=bool(dump), **kw)
-        rec = {"module": base, "config": name, "constants": {k: tlc.tla(v) for k, v in constants.items()},
+        rec = {"module": base, "config": name, "constants": {k: (tlc.tla(v) if len(tlc.tla(v)) <= 400 else tlc.tla(v)[:400] + " ...") for k, v in constants.items()},
                "invariants": list(invariants), "properties": list(properties),
                "states": r["stats"]["generated"], "distinct": r["stats"]["distinct"], "depth": r["stats"]["depth"],
                "wall_s": round(r["wall"], 1), "ok": r["ok"], "violated": r["violated"]}
